@@ -76,10 +76,11 @@ theorem stampRec_failed (r : Rec) (R : Nat) (data : Content) : (stampRec r R dat
 
 theorem rsFinish_nnf {R : Nat} (cx : Ctx) (t : Nat) (sc : Script) (w : World) :
     NoNewFail R w (rsFinish cx t sc w).2.2 := by
-  unfold rsFinish
+  rw [rsFinish_world]
   split
   · exact NoNewFail.refl R w
-  · dsimp only
+  · unfold rsStampW
+    dsimp only
     split
     · exact NoNewFail.refl R w
     · exact (NoNewFail.addKnown w t).trans (NoNewFail.setRec_none _ _ _ (stampRec_failed _ _ _))
